@@ -99,6 +99,17 @@ static void stage_shapes(Run &R) {
         Bytes q; for (int i = 0; i < 4; i++) { if (i) q += '.'; q += i == pos ? std::to_string(v) : std::to_string(7 + i); }
         for (const Bytes &d : {"[" + q + "]", "[IPv6:::ffff:" + q + "]", "[IPv6:1:2:3:4:5:6:" + q + "]", "[0" + q + "]"}) if (!go(d)) return;
     }
+    // octets far beyond the range: values that wrap to <= 255 modulo 2^8, 2^16, 2^31, 2^32, 2^64 when accumulated in a
+    // narrow or overflowing integer, long zero-padded and long all-nine runs
+    static const char *BIG[] = {"256", "257", "511", "512", "65536", "65537", "65791", "2147483648", "2147483649", "4294967295", "4294967296", "4294967297", "4294967551", "4294967552",
+                                "8589934593", "9999999999", "18446744073709551615", "18446744073709551616", "18446744073709551617", "18446744073709551871", "340282366920938463463374607431768211457",
+                                "00000000000000000000000000000000000000001", "0000000000255", "0000000000256", "99999999999999999999999999999999", "1e3", "0x10", "1_0"};
+    for (int pos = 0; pos < 4; pos++) for (const char *b : BIG) {
+        Bytes q; for (int i = 0; i < 4; i++) { if (i) q += '.'; q += i == pos ? Bytes(b) : std::to_string(9 + i); }
+        for (const Bytes &d : {"[" + q + "]", "[IPv6:::ffff:" + q + "]", "[IPv6:1:2:3:4:5:6:" + q + "]"}) if (!go(d)) return;
+    }
+    for (const char *g : {"10000", "00000", "fffff", "0ffff", "123456789", "ffffffffffffffff1", "-1", "+1", " 1"}) for (int pos : {0, 3, 7})
+        { Bytes a; for (int i = 0; i < 8; i++) { if (i) a += ':'; a += i == pos ? Bytes(g) : Bytes("1"); } if (!go("[IPv6:" + a + "]")) return; }
     // digit counts and dot placement
     for (const char *q : {"1.2.3", "1.2.3.4.5", "1.2.3.4.", ".1.2.3.4", "1..2.3.4", "1.2.3.4..", "001.002.003.004", "0001.2.3.4", "1.2.3.0004", "256.1.1.1", "1.2.3.256", "0.0.0.0", "0.1.2.3", "1.2.3.4", "255.255.255.255",
                           "1.2.3.4a", "a.b.c.d", "1.2.3.-4", "1.2.3.+4", " 1.2.3.4", "1.2.3.4 ", "1,2,3,4", "0x1.2.3.4", "1.2.3.4/8", "12345678", "1.2.3.4\t"})
